@@ -39,6 +39,7 @@ THEOREMS = [
 KINDS = ["argparse_function", "class", "function"]  # iteration order of arg2parse_emit_type
 FLAG = {"argparse_function": "--argparse-function", "class": "--class", "function": "--function"}
 FNAME = {"argparse_function": "argp.py", "class": "cls.py", "function": "meth.py"}
+CLI_TIMEOUTS = (120, 480)  # seconds per `python -m cdd sync` run (normally < 1 s); second attempt after restoring the files
 
 
 # ======================================================================================================
@@ -493,6 +494,9 @@ def build_file(rng, kind, name, iface, state, shape=None):
 def build_case(rng, k):
     truth = rng.choice(KINDS)
     names = {"class": rng.choice(CLASS_NAMES), "function": rng.choice(METHOD_PATHS), "argparse_function": rng.choice(ARGPARSE_NAMES)}
+    while names["argparse_function"] == names["function"].split(".")[-1]:
+        # equal names make the emitters reuse the truth's own body (`_internal` is keyed by the name): a different matter
+        names["argparse_function"] = rng.choice(ARGPARSE_NAMES)
     if truth != "function" and rng.random() < 0.08:
         names["function"] = " " + names["function"].replace(".", " . ")  # targets go through strip_split (the truth's name does not)
     ifaces, states, used = {}, {}, []
@@ -729,12 +733,26 @@ def run_real(case):
             for kind in KINDS:
                 f = Path(d, fname(case, kind))
                 before[kind] = f.read_text() if f.exists() else None
-            try:
-                p = subprocess.run([core.PY, "-m", "cdd"] + cli_args(case, d), stdout=subprocess.PIPE, stderr=subprocess.PIPE, text=True,
-                                   env=env, cwd=d, timeout=120)
-                rc, out, err = p.returncode, p.stdout, p.stderr
-            except subprocess.TimeoutExpired:
-                rc, out, err = -9, "", "TIMEOUT"
+            rc = None
+            for tmo in CLI_TIMEOUTS:
+                try:
+                    p = subprocess.run([core.PY, "-m", "cdd"] + cli_args(case, d), stdout=subprocess.PIPE, stderr=subprocess.PIPE, text=True,
+                                       env=env, cwd=d, timeout=tmo)
+                    rc, out, err = p.returncode, p.stdout, p.stderr
+                    break
+                except subprocess.TimeoutExpired:
+                    # a run that was cut off may have written some files: restore the state before it and try again, longer
+                    for kind in KINDS:
+                        f = Path(d, fname(case, kind))
+                        if before[kind] is None:
+                            if f.exists():
+                                f.unlink()
+                        else:
+                            f.write_text(before[kind])
+            if rc is None:
+                # never a verdict: the case is dropped (and too many of them make the check a harness error, exit 2)
+                snaps.append({"timeout": True})
+                return snaps
             files = {}
             for kind in KINDS:
                 f = Path(d, fname(case, kind))
@@ -1026,8 +1044,7 @@ def stdlib_iface(kind, node):
     def ent(name, ann, dflt):
         d = None if dflt is None else _lit(dflt)
         t = None if ann is None else ast.unparse(ann)
-        if t is None and d is not None and d.split(":")[0] in ("int", "float", "str", "bool"):
-            t = d.split(":")[0]  # no annotation: the type of the literal default
+        # (no annotation / no `type=`: the docstring may state the type, which the stdlib reading does not see — no type then)
         out.append((name, t, d))
 
     if kind == "class":
@@ -1300,6 +1317,9 @@ def oracle_phase(chk, case, before, states, snaps):
                         fail(dict(sig0, clause="defaults", default_from=tv.split(":")[0], default_to=(wv or "missing").split(":")[0]),
                              "%s target %s was written with %s = %s, the truth (%s) has %s" % (kind, name, pn, wv or "missing", t, tv))
                         break
+                    if wt is None:
+                        # the written side states no type: what its literal default says (argparse omits `type=` for str on purpose)
+                        wt = wv.split(":")[0] if wv and wv.split(":")[0] in ("int", "float", "str", "bool") else ("str" if kind == "argparse_function" else None)
                     if "argparse_function" in (kind, t):
                         # `add_argument(type=…)` cannot say Optional: compare the base types
                         tt, wt = (x[9:-1] if x and x.startswith("Optional[") and x.endswith("]") else x for x in (tt, wt))
@@ -1360,6 +1380,15 @@ def check_sync_cases(chk, cases, label):
     """runs the real CLI, the model, the tie and the oracle over `cases`; returns #disagreements"""
     with cf.ThreadPoolExecutor(core.NCPU) as ex:
         real = list(ex.map(run_real, cases))
+    slow = [i for i, sn in enumerate(real) if any(x.get("timeout") for x in sn)]
+    if slow:
+        chk.coverage["cli_timeouts_dropped"] = chk.coverage.get("cli_timeouts_dropped", 0) + len(slow)
+        chk.notes.append("%d case(s) dropped: `python -m cdd sync` did not finish within %s s twice (machine load); not evaluated" % (len(slow), CLI_TIMEOUTS))
+        if len(slow) > max(3, len(cases) // 50):
+            raise core.HarnessError("%d of %d CLI cases timed out (%s s): the machine is overloaded, no verdict" % (len(slow), len(cases), CLI_TIMEOUTS))
+        keep = [i for i in range(len(cases)) if i not in set(slow)]
+        cases[:] = [cases[i] for i in keep]
+        real = [real[i] for i in keep]
     n_dis = 0
     state = [{k: file_json(c["files"][k]) for k in KINDS} for c in cases]
     alive = [True] * len(cases)
@@ -1656,6 +1685,9 @@ def replay(path: str) -> int:
         return 2
     case = rp["case"]
     snaps = run_real(case)
+    if any(x.get("timeout") for x in snaps):
+        print("replay: the CLI did not finish within %s s (machine load): no verdict" % (CLI_TIMEOUTS,))
+        return 2
     chk = core.Check("C12", "quick", 0)
     with quiet():
         fails = oracle(chk, case, snaps)
